@@ -316,7 +316,11 @@ do_recv_aio(int c)
 	int64_t t0 = vs_now();
 	a->done    = 0;
 	a->msg     = NULL;
-	nng_aio_set_timeout(a->aio, NNG_DURATION_INFINITE);
+	// the socket's receive waits without a limit of its own, the context's with one equal to
+	// the survey time: issued at or after the survey it can never end before the deadline
+	// (tp + SURVEYTIME >= D), so the reference model is the same for both - but the receive
+	// has to be cut at the deadline, not at its own, later, limit
+	nng_aio_set_timeout(a->aio, c ? SURVEYTIME : NNG_DURATION_INFINITE);
 	if (c)
 		nng_ctx_recv(S_ctx, a->aio);
 	else
